@@ -10,7 +10,7 @@ open NgoVerif NgoVerif.Sem NgoVerif.Cleanup
 
 variable (P : Params)
 
-theorem litTrue_sat (G : List String) (e : Env) (H T : Interp) :
+theorem litTrue_sat (G : String → Prop) (e : Env) (H T : Interp) :
     ∀ l : Lit, litTrue l = true → litSat P G e H T l
   | (.pos, .bool b), h => by simpa [litTrue, litSat, atomSat] using h
   | (.dneg, .bool b), h => by simpa [litTrue, litSat, atomSat] using h
@@ -21,7 +21,7 @@ theorem litTrue_sat (G : List String) (e : Env) (H T : Interp) :
   | (_, .agg ..), h => by simp [litTrue] at h
   | (_, .theory _), h => by simp [litTrue] at h
 
-theorem litFalse_unsat (G : List String) (e : Env) (H T : Interp) :
+theorem litFalse_unsat (G : String → Prop) (e : Env) (H T : Interp) :
     ∀ l : Lit, litFalse l = true → ¬ litSat P G e H T l
   | (.pos, .bool b), h => by simpa [litFalse, litSat, atomSat] using h
   | (.dneg, .bool b), h => by simpa [litFalse, litSat, atomSat] using h
@@ -32,7 +32,7 @@ theorem litFalse_unsat (G : List String) (e : Env) (H T : Interp) :
   | (_, .agg ..), h => by simp [litFalse] at h
   | (_, .theory _), h => by simp [litFalse] at h
 
-theorem removeTrueLits_sat (G : List String) (e : Env) (H T : Interp) :
+theorem removeTrueLits_sat (G : String → Prop) (e : Env) (H T : Interp) :
     ∀ c : List Lit, litsSat P G e H T (removeTrueLits c) ↔ litsSat P G e H T c
   | [] => by simp [removeTrueLits]
   | l :: ls => by
@@ -43,7 +43,7 @@ theorem removeTrueLits_sat (G : List String) (e : Env) (H T : Interp) :
       exact ⟨fun h => ⟨litTrue_sat P G e H T l ht, h⟩, fun h => h.2⟩
     · simp only [List.filter_cons, ht, Bool.not_false, if_true, litsSat, ih]
 
-theorem containsFalseLits_unsat (G : List String) (e : Env) (H T : Interp) :
+theorem containsFalseLits_unsat (G : String → Prop) (e : Env) (H T : Interp) :
     ∀ c : List Lit, containsFalseLits c = true → ¬ litsSat P G e H T c
   | [], h => by simp [containsFalseLits] at h
   | l :: ls, h => by
@@ -55,7 +55,7 @@ theorem containsFalseLits_unsat (G : List String) (e : Env) (H T : Interp) :
     · exact containsFalseLits_unsat G e H T ls (by simpa [containsFalseLits] using h) hs.2
 
 /-- element filtering of `cleanup_boolean_aggregates` keeps the contributed tuple set -/
-theorem bTuples_clean (G : List String) (e : Env) (H T : Interp) :
+theorem bTuples_clean (G : String → Prop) (e : Env) (H T : Interp) :
     ∀ (es : List (List Term × List Lit)) (tup : List Sym),
       bTuples P G e H T (es.filterMap fun (ts, cond) =>
           let cond' := removeTrueLits cond
@@ -80,7 +80,7 @@ theorem bTuples_clean (G : List String) (e : Env) (H T : Interp) :
         · exact Or.inl ⟨e', ha, ht, (removeTrueLits_sat P G e' H T c).mpr hc⟩
         · exact Or.inr h
 
-theorem cleanupBooleanAggregates_sat (G : List String) (e : Env) (H T : Interp) (b : List BLit) :
+theorem cleanupBooleanAggregates_sat (G : String → Prop) (e : Env) (H T : Interp) (b : List BLit) :
     bodySat P G e H T (cleanupBooleanAggregates b) ↔ bodySat P G e H T b := by
   unfold cleanupBooleanAggregates bodySat
   simp only [List.mem_map]
@@ -124,7 +124,7 @@ theorem cleanupBooleanAggregates_sat (G : List String) (e : Env) (H T : Interp) 
         rw [h1, h2]; exact this
       | _ => exact this
 
-theorem cleanupBooleanConditionals_sat (G : List String) (e : Env) (H T : Interp) :
+theorem cleanupBooleanConditionals_sat (G : String → Prop) (e : Env) (H T : Interp) :
     ∀ b : List BLit, bodySat P G e H T (cleanupBooleanConditionals b) ↔ bodySat P G e H T b
   | [] => by simp [cleanupBooleanConditionals]
   | .lit l :: bs => by
@@ -150,7 +150,7 @@ theorem cleanupBooleanConditionals_sat (G : List String) (e : Env) (H T : Interp
       rw [ih]
       simp only [blitSat, condLitSat, removeTrueLits_sat]
 
-theorem blitTrue_sat (G : List String) (e : Env) (H T : Interp) :
+theorem blitTrue_sat (G : String → Prop) (e : Env) (H T : Interp) :
     ∀ l : BLit, blitTrue l = true → blitSat P G e H T l
   | .lit l, h => litTrue_sat P G e H T l (by simpa [blitTrue] using h)
   | .clit (l, []), h => by
@@ -159,7 +159,7 @@ theorem blitTrue_sat (G : List String) (e : Env) (H T : Interp) :
     exact ⟨fun _ => litTrue_sat P G e' H T l ht, fun _ => litTrue_sat P G e' T T l ht⟩
   | .clit (l, _ :: _), h => by simp [blitTrue] at h
 
-theorem blitFalse_unsat (G : List String) (e : Env) (H T : Interp) :
+theorem blitFalse_unsat (G : String → Prop) (e : Env) (H T : Interp) :
     ∀ l : BLit, blitFalse l = true → ¬ blitSat P G e H T l
   | .lit l, h => litFalse_unsat P G e H T l (by simpa [blitFalse] using h)
   | .clit (l, []), h => by
@@ -169,7 +169,7 @@ theorem blitFalse_unsat (G : List String) (e : Env) (H T : Interp) :
     exact litFalse_unsat P G e H T l hf this
   | .clit (l, _ :: _), h => by simp [blitFalse] at h
 
-theorem removeTrueBLits_sat (G : List String) (e : Env) (H T : Interp) (b : List BLit) :
+theorem removeTrueBLits_sat (G : String → Prop) (e : Env) (H T : Interp) (b : List BLit) :
     bodySat P G e H T (removeTrueBLits b) ↔ bodySat P G e H T b := by
   unfold removeTrueBLits bodySat
   constructor
@@ -179,7 +179,7 @@ theorem removeTrueBLits_sat (G : List String) (e : Env) (H T : Interp) (b : List
     · exact h l (List.mem_filter.mpr ⟨hl, by simpa using ht⟩)
   · intro h l hl; exact h l (List.mem_filter.mp hl).1
 
-theorem containsFalseBLits_unsat (G : List String) (e : Env) (H T : Interp) (b : List BLit)
+theorem containsFalseBLits_unsat (G : String → Prop) (e : Env) (H T : Interp) (b : List BLit)
     (h : containsFalseBLits b = true) : ¬ bodySat P G e H T b := by
   unfold containsFalseBLits at h
   obtain ⟨l, hl, hf⟩ := List.any_eq_true.mp h
@@ -187,7 +187,7 @@ theorem containsFalseBLits_unsat (G : List String) (e : Env) (H T : Interp) (b :
 
 /-- **`remove_boolean` on a body**: the cleaned body has the same denotation, and a body is discarded (statement
 dropped) only if it can never hold -/
-theorem removeBooleanBody_sound (G : List String) (e : Env) (H T : Interp) (b : List BLit) :
+theorem removeBooleanBody_sound (G : String → Prop) (e : Env) (H T : Interp) (b : List BLit) :
     match removeBooleanBody b with
     | some b' => (bodySat P G e H T b' ↔ bodySat P G e H T b)
     | none => ¬ bodySat P G e H T b := by
